@@ -236,6 +236,42 @@ pub(crate) fn verif_take_remote_state_log() -> Vec<(EndpointId, bool)> {
 }
 
 #[cfg(iroh_verif)]
+impl Socket {
+    /// Verification hook (C18): runs the real [`Socket::process_datagrams`] on a synthetic
+    /// receive batch — one empty datagram per source, in order — and returns, per datagram,
+    /// the socket address noq is told it came from and what [`Socket::to_transport_addr`]
+    /// translates that address back to.
+    pub(crate) fn verif_label_batch(
+        &self,
+        srcs: &[transports::Addr],
+    ) -> Vec<(SocketAddr, transports::Addr)> {
+        let mut storage: Vec<[u8; 1]> = vec![[0u8; 1]; srcs.len()];
+        let mut bufs: Vec<io::IoSliceMut<'_>> =
+            storage.iter_mut().map(|b| io::IoSliceMut::new(b)).collect();
+        let mut metas: Vec<noq_udp::RecvMeta> = srcs
+            .iter()
+            .map(|s| {
+                let mut m = noq_udp::RecvMeta::default();
+                if let transports::Addr::Ip(a) = s {
+                    m.addr = *a;
+                }
+                m
+            })
+            .collect();
+        let infos: Vec<transports::RecvInfo> = srcs
+            .iter()
+            .cloned()
+            .map(transports::RecvInfo::from_addr)
+            .collect();
+        self.process_datagrams(&mut bufs, &mut metas, &infos);
+        metas
+            .iter()
+            .map(|m| (m.addr, self.to_transport_addr(m.addr)))
+            .collect()
+    }
+}
+
+#[cfg(iroh_verif)]
 impl EndpointInner {
     /// Verification hook: the shared socket state.
     pub(crate) fn verif_sock(&self) -> Arc<Socket> {
